@@ -4,6 +4,7 @@ import (
 	"context"
 	"encoding/binary"
 	"encoding/json"
+	"errors"
 	"fmt"
 	"math/rand"
 	"runtime/debug"
@@ -286,6 +287,28 @@ func runTTHCase(raw json.RawMessage, w *TraceWriter) {
 	}()
 	if frame == nil {
 		return
+	}
+	// Encode over a writer that runs out of room after `budget` bytes: success exactly when the frame fits,
+	// otherwise the writer's own error
+	seenB := map[int]bool{}
+	for _, budget := range []int{0, 13, 14, 15, len(frame) / 2, len(frame) - 3, len(frame) - 1, len(frame), len(frame) + 3} {
+		if budget < 0 || seenB[budget] {
+			continue
+		}
+		seenB[budget] = true
+		bwr := &budgetWriter{budget: budget, fail: errBudget}
+		var err error
+		panicked := false
+		func() {
+			defer func() {
+				if r := recover(); r != nil {
+					panicked = true
+				}
+			}()
+			_, err = ttheader.Encode(ctx, param, bwr)
+		}()
+		w.Ev("tth_encb", "budget", budget, "flen", len(frame), "ok", err == nil && !panicked, "panic", panicked,
+			"errsrc", err != nil && errors.Is(err, errBudget), "wrote", bwr.used)
 	}
 	// delimit a payload: total length = header + payload - 4
 	full := append([]byte(nil), frame...)
